@@ -4,6 +4,7 @@ import (
 	"fmt"
 	"go/ast"
 	"go/types"
+	"strings"
 )
 
 // callbackClauses finds `callback NAME kind` clauses for a callback variable: in the
@@ -44,6 +45,9 @@ func (p *Proc) callValue(ec *ectx, funExpr ast.Expr, fv Val, sig *types.Signatur
 	v := p.cbVar(ec, funExpr)
 	if v != nil {
 		name := v.Name()
+		if p.fi.Lit == nil && p.contract != nil && defersParam(p.contract, name) {
+			p.oblige(st, "defers", fmt.Sprintf("%sdefers[%s#%d]", p.cur().prefix, name, p.callOrdinal(call)), nil, TFalse, p.where(call))
+		}
 		extra := cbArgNames(sig, args)
 		site := fmt.Sprintf("%scb[%s#%d]", p.cur().prefix, name, p.callOrdinal(call))
 		for i, cl := range p.callbackClauses(name, "cb.requires") {
@@ -146,6 +150,11 @@ func (p *Proc) handOver(ec *ectx, ct *Contract, fi *FuncInfo, sig *types.Signatu
 			continue
 		}
 		a := args[i]
+		if i < len(call.Args) {
+			if v := p.cbVar(ec, call.Args[i]); v != nil && p.contract != nil && p.fi.Lit == nil && defersParam(p.contract, v.Name()) && !defersParam(ct, pt.Name()) {
+				p.oblige(st, "defers", fmt.Sprintf("%sdefers[%s->%s]", p.cur().prefix, v.Name(), calleeText(call)), nil, TFalse, p.where(call))
+			}
+		}
 		if a.Closure != nil {
 			h := p.heapGet(st, "G:$handed", SInt)
 			p.heapSet(st, "G:$handed", Add(h, IntLit(1)))
@@ -405,4 +414,83 @@ func finalVar(root *FuncInfo, v *types.Var) bool {
 		return true
 	})
 	return assigns == 0
+}
+
+func defersParam(ct *Contract, name string) bool {
+	for _, cl := range ct.ByKind("defers") {
+		for _, n := range splitNames(cl.Text) {
+			if n == name {
+				return true
+			}
+		}
+	}
+	return false
+}
+
+// syncClosureEffects accounts for callees that may invoke a passed closure before returning.
+func (p *Proc) syncClosureEffects(ec *ectx, ct *Contract, sig *types.Signature, args []Val, call *ast.CallExpr) {
+	st := ec.st
+	for i := 0; i < sig.Params().Len() && i < len(args); i++ {
+		pt := sig.Params().At(i)
+		if _, ok := pt.Type().Underlying().(*types.Signature); !ok {
+			continue
+		}
+		if defersParam(ct, pt.Name()) {
+			continue
+		}
+		a := args[i]
+		if i < len(call.Args) {
+			if v := p.cbVar(ec, call.Args[i]); v != nil {
+				continue // the caller's own callback: framed by its callback contract
+			}
+		}
+		if a.IsNil || a.T.S == "0" {
+			continue
+		}
+		if a.Closure == nil {
+			p.havocAll(st)
+			return
+		}
+		// a closure that may run before the callee returns must not invoke a callback that this
+		// procedure promised to defer
+		if p.fi.Lit == nil && p.contract != nil {
+			for _, fv := range freeVars(p.fi.Pkg.TypesInfo, a.Closure.Lit) {
+				if p.cbParams[fv.Name()] == fv && defersParam(p.contract, fv.Name()) {
+					p.oblige(st, "defers", fmt.Sprintf("%sdefers[%s via closure#%d]", p.cur().prefix, fv.Name(), a.Closure.Ordinal), nil, TFalse, p.where(call))
+				}
+			}
+		}
+		top := p.fi.root()
+		cct := p.ctx.contracts[fmt.Sprintf("%s#%d", top.Key, a.Closure.Ordinal)]
+		if cct == nil || len(cct.ByKind("assigns")) == 0 {
+			p.havocAll(st)
+			return
+		}
+		// the closure's own frame, evaluated at the call site (captured variables are in scope)
+		pre := st.clone()
+		for _, cl := range cct.ByKind("assigns") {
+			if cl.Arg == "*" {
+				p.havocAll(st)
+				return
+			}
+			for _, e := range cl.Exprs {
+				cec := p.specEc(pre, a.Closure.Lit.Body.Lbrace)
+				cec.where = cl.Where
+				for _, l := range p.evalLoc(cec, e) {
+					if strings.HasPrefix(l.key, "$pfx:") {
+						p.havocPrefix(st, strings.TrimPrefix(l.key, "$pfx:"))
+						continue
+					}
+					old := p.heapGet(st, l.key, l.sort)
+					if l.ref == nil {
+						nh := p.havocHeap(st, l.key, l.sort)
+						p.heapMonotone(st, l.key, old, nh)
+					} else {
+						_, es := elemSortOfArr(l.sort)
+						p.heapSet(st, l.key, Store(old, l.ref, p.freshConst("hv", es)))
+					}
+				}
+			}
+		}
+	}
 }
